@@ -260,12 +260,13 @@ func judgeC10(out *evid.Out, r *dRun) {
 	} else if strings.HasPrefix(r.ProducersHung, "inconclusive") {
 		out.Inconc("producers did not return within the watchdog but are not parked: " + r.ProducersHung + " " + r.cfg.String())
 	}
+	writes, deliveries := r.W(), r.D()
 	byID := map[string]*dWrite{}
-	for _, w := range r.writes {
+	for _, w := range writes {
 		byID[w.ID] = w
 	}
 	seen := map[string]int{}
-	for _, d := range r.deliveries {
+	for _, d := range deliveries {
 		w, ok := byID[d.ID]
 		switch {
 		case !ok:
@@ -291,7 +292,7 @@ func judgeC10(out *evid.Out, r *dRun) {
 	// i<j Write(dj) returned before Write(di) was called.
 	var maxCall int64
 	var maxCallID string
-	for _, d := range r.deliveries {
+	for _, d := range deliveries {
 		w, ok := byID[d.ID]
 		if !ok {
 			continue
@@ -314,10 +315,10 @@ func judgeC10(out *evid.Out, r *dRun) {
 		}
 	}
 	// porcupine, as a second opinion on short histories
-	if n := len(r.writes) + len(r.deliveries); n > 0 && n <= 20 && r.ProducersHung == "" {
+	if n := len(writes) + len(deliveries); n > 0 && n <= 20 && r.ProducersHung == "" {
 		var ops []porcupine.Operation
 		end := atomic.LoadInt64(&r.clk) + 10
-		for i, w := range r.writes {
+		for i, w := range writes {
 			ret := w.Ret
 			if !w.Returned {
 				ret = end
@@ -325,7 +326,7 @@ func judgeC10(out *evid.Out, r *dRun) {
 			ops = append(ops, porcupine.Operation{ClientId: 1 + w.Prod, Input: lfIn{true, w.ID}, Call: w.Call, Output: "", Return: ret})
 			_ = i
 		}
-		for _, d := range r.deliveries {
+		for _, d := range deliveries {
 			ops = append(ops, porcupine.Operation{ClientId: 0, Input: lfIn{false, d.ID}, Call: d.Entry, Output: d.ID, Return: d.Exit})
 		}
 		model := porcupine.Model{
@@ -414,10 +415,10 @@ func judgeC11(out *evid.Out, r *dRun) {
 	before := 0
 	undeliveredBefore := 0
 	deliveredSet := map[string]bool{}
-	for _, d := range r.deliveries {
+	for _, d := range r.D() {
 		deliveredSet[d.ID] = true
 	}
-	for _, w := range r.writes {
+	for _, w := range r.W() {
 		if w.Ret < r.closeCalled {
 			before++
 			if !deliveredSet[w.ID] {
@@ -521,8 +522,8 @@ func diodeCheck(prop string, args []string) int {
 		}
 		out.Case(h, nontrivial || len(ws) > 0)
 		out.Count("hook_events", int64(len(r.trace)))
-		out.Count("writes", int64(len(r.writes)))
-		out.Count("deliveries", int64(len(r.deliveries)))
+		out.Count("writes", int64(len(r.W())))
+		out.Count("deliveries", int64(len(r.D())))
 	}
 	// 1. seeded noisy runs
 	n := f.N(6000, 300000)
